@@ -582,7 +582,9 @@ func (mw *msgWriter) writeBody(writeFunc func(io.Writer) (int64, error), encodin
 		encodedWriter = quotedprintable.NewWriter(&writeBuffer)
 	case EncodingB64:
 		encodedWriter = base64.NewEncoder(base64.StdEncoding, &lineBreaker)
-	case NoEncoding:
+	case NoEncoding, EncodingUSASCII:
+		// 7bit content is written as is, like 8bit content. It is declared as not being encoded and
+		// encoding it as quoted-printable would make it differ from what is announced
 		_, err = writeFunc(&writeBuffer)
 		if err != nil {
 			mw.err = fmt.Errorf("bodyWriter function: %w", err)
